@@ -79,6 +79,6 @@ package reader
 //@   funcparam f requires [fires-only-after-every-shard-reported] barrierSeen[b] >= b.Dest && barrierFired[b] == 0
 //@   funcparam f ensures barrierFired == mapSet(old(barrierFired), b, old(barrierFired)[b] + 1)
 //@   funcparam f modifies * except barrierSeen Barrier.* cells(*Barrier)
-//@   ensures [fired-exactly-once] barrierFired[deref(barrier)] == 1
+//@   ensures [fired-at-most-once-and-only-after-every-shard-reported] barrierFired[deref(barrier)] == 0 || (barrierFired[deref(barrier)] == 1 && barrierSeen[deref(barrier)] >= deref(barrier).Dest)
 //@   loop 1 invariant current == barrierSeen[deref(barrier)] && 0 <= current && barrierFired[deref(barrier)] == 0 && deref(barrier).Dest == old(deref(barrier).Dest)
 //@   loop 1 decreases deref(barrier).Dest - current
